@@ -113,6 +113,8 @@ def suites(tier: str, seed: int) -> List[Suite]:
     # regenerating INTO THE SAME OUTPUT DIRECTORY after a linked asset got other bytes of the same length (with and
     # without the old timestamps): must equal a from-scratch generation of the edited tree
     hist.cases += SC.gen_asset_history_cases(seed, 6 if tier == "quick" else 80, fresh=True)
+    # ... and after recipes were edited so that pages get SHORTER (byte-for-byte equal to a fresh process)
+    hist.cases += SC.gen_rebuild_history_cases(seed, 6 if tier == "quick" else 80, "C17")
     return [order, hist]
 
 
